@@ -18,7 +18,7 @@ CFG = {
         "rule": "c16: member-name sets from the path grammar: EVERY name of depth <= 2 (quick) / <= 3 (thorough) over 11 component kinds "
                 "('.', '..', normal, empty, unicode, 255 and 256 bytes, '...', absolute markers) x leading/trailing separator, "
                 "each together with a benign member, plus random sets of 1-4 names of depth <= 4; forms cycle over {linear, glob '*', one listed "
-                "name}; output directory argument relative/absolute, existing/absent. c16-symlink: output directory pre-populated with "
+                "name}; output directory argument relative/absolute, existing/absent. c16-prefix (run with c16-symlink): output directories holding a link to a sibling whose NAME extends their own (restore/latest -> ../restore-old; o / o2; out / out.bak), linear and listed forms, nothing outside may change; c16-symlink: output directory pre-populated with "
                 "out/link -> ../sibling, out/deep/l2 -> ../../sibling/keepdir, out/flink -> ../outside.txt, out/dlink -> ../nowhere.txt (dangling); 30 (quick) / 120 (thorough) random sets of "
                 "1-4 of 22 member names routed through the links (existing and missing directories behind them, the links themselves, a link to a "
                 "file used as a directory, '..' spellings) plus a benign member, random archive order, the three forms; every case is non-trivial; "
